@@ -8,6 +8,7 @@
     * `inputGap_mirror`  `InputGap alg A P S τ → InputGap alg A' P' S τ`, every algorithm
 -/
 import Gama.Lemmas.Ls.InputGap
+import Gama.Lemmas.C07LS
 namespace Gama.C07Gap
 open Gama Gama.Ls Gama.LS Matrix Finset
 
@@ -147,5 +148,45 @@ theorem inputGap_mirror (alg : Alg) (A : Matrix (Fin m) (Fin n) K) (P : Matrix (
   | gso => exact ⟨h.1, gapAllP_mirror A P s t hs ht τ h.2.1, sMargin_mirror A s t hs ht S τ h.2.2⟩
 
 end inputGap
+
+section unique
+variable {K : Type} [Field K] [LinearOrder K] [IsStrictOrderedRing K] {m n : ℕ}
+
+/-- **the least-squares solution of the mirrored system IS the mirrored solution**: whatever satisfies the
+    specification on `(D_s A D_t, D_s b, D_s P D_s, S)` equals `(D_t x, D_s v, Φ)` of a solution `(x, v, Φ)` of
+    `(A, b, P, S)` — `P` positive definite, `S` resolving the defect of `A` -/
+theorem mirror_solution_unique (A : Matrix (Fin m) (Fin n) K) (b : Fin m → K) (P : Matrix (Fin m) (Fin m) K)
+    (S : Finset (Fin n)) (s : Fin m → K) (t : Fin n → K) (hs : ∀ i, s i * s i = 1) (ht : ∀ j, t j * t j = 1)
+    (hpd : ∀ d, d ≠ 0 → 0 < d ⬝ᵥ P *ᵥ d) (hS : Resolves A S)
+    (x x' : Fin n → K) (v v' : Fin m → K) (rtr rtr' : K)
+    (h : IsLSSolution A b P S x v rtr)
+    (h' : IsLSSolution (diagonal s * A * diagonal t) (diagonal s *ᵥ b) (diagonal s * P * diagonal s) S x' v' rtr') :
+    x' = diagonal t *ᵥ x ∧ v' = diagonal s *ᵥ v ∧ rtr' = rtr := by
+  have h1 := (h.rowSign s hs).colSign t ht
+  have hpd' : ∀ d, d ≠ 0 → 0 < d ⬝ᵥ (diagonal s * P * diagonal s) *ᵥ d := by
+    intro d hd
+    have hd' : diagonal s *ᵥ d ≠ 0 := by
+      intro h0; apply hd
+      have : diagonal s *ᵥ (diagonal s *ᵥ d) = d := diag_sq_m s hs d
+      rw [← this, h0, mulVec_zero]
+    have hq := hpd _ hd'
+    have e : d ⬝ᵥ (diagonal s * P * diagonal s) *ᵥ d = (diagonal s *ᵥ d) ⬝ᵥ P *ᵥ (diagonal s *ᵥ d) := by
+      have e1 : (diagonal s * P * diagonal s) *ᵥ d = diagonal s *ᵥ (P *ᵥ (diagonal s *ᵥ d)) := by
+        rw [← mulVec_mulVec, ← mulVec_mulVec]
+      rw [e1, ← dot_diag s hs d, diag_sq_m s hs]
+    rw [e]; exact hq
+  have hS' : Resolves (diagonal s * A * diagonal t) S := by
+    intro g hg hz
+    have hAg : A *ᵥ (diagonal t *ᵥ g) = 0 := by
+      have h1 : diagonal s *ᵥ (A *ᵥ (diagonal t *ᵥ g)) = 0 := by rw [← mir_mulVec A s t g]; exact hg
+      have h2 : diagonal s *ᵥ (diagonal s *ᵥ (A *ᵥ (diagonal t *ᵥ g))) = 0 := by rw [h1, mulVec_zero]
+      rwa [diag_sq_m s hs] at h2
+    have h0 := hS _ hAg (fun i hi => by rw [mulVec_diagonal, hz i hi, mul_zero])
+    have : diagonal t *ᵥ (diagonal t *ᵥ g) = g := diag_sq t ht g
+    rw [← this, h0, mulVec_zero]
+  obtain ⟨e1, e2, e3⟩ := h1.unique h' hpd' hS'
+  exact ⟨e1.symm, e2.symm, e3.symm⟩
+
+end unique
 
 end Gama.C07Gap
